@@ -1,6 +1,10 @@
 // C18: child module of crate::bmp (hook at the end of daemon/src/bmp.rs), so that the harness in
 // harness/daemon/c18.rs can run the REAL private consumer functions `apply_snapshot`,
-// `track_peer_up`, `track_peer_down` on the event stream it received from `TableManager`.
+// `send_peer_up`, `send_peer_down` (and through them `track_peer_up`, `track_peer_down`) on the
+// event stream it received from `TableManager`.  `Wire` is a real loopback BMP connection: the
+// client end is the `Framed<TcpStream, BmpCodec>` the real forwarding functions write to, the
+// server end is read back by the harness and decoded (message type + per-peer header address),
+// so the observation is what was actually put on the wire.
 #![allow(dead_code)]
 use super::*;
 
@@ -52,5 +56,109 @@ impl Consumer {
     }
     pub(crate) fn dump_post(&self) -> Vec<Row> {
         Self::dump(&self.post)
+    }
+}
+
+/// A loopback BMP session: the live PeerUp / PeerDown arms of `BmpClient::serve`.
+pub(crate) struct Wire {
+    rt: &'static tokio::runtime::Runtime,
+    lines: Framed<TcpStream, bmp::BmpCodec>,
+    server: std::net::TcpStream,
+    sent: FnvHashSet<IpAddr>,
+}
+
+fn runtime() -> &'static tokio::runtime::Runtime {
+    static RT: std::sync::OnceLock<tokio::runtime::Runtime> = std::sync::OnceLock::new();
+    RT.get_or_init(|| {
+        tokio::runtime::Builder::new_current_thread()
+            .enable_all()
+            .build()
+            .expect("tokio runtime")
+    })
+}
+
+impl Wire {
+    pub(crate) fn new() -> Self {
+        let rt = runtime();
+        let listener = std::net::TcpListener::bind("127.0.0.1:0").expect("bind loopback");
+        let addr = listener.local_addr().unwrap();
+        let stream = rt.block_on(TcpStream::connect(addr)).expect("connect loopback");
+        let (server, _) = listener.accept().expect("accept loopback");
+        Wire {
+            rt,
+            lines: Framed::new(stream, bmp::BmpCodec::new()),
+            server,
+            sent: FnvHashSet::default(),
+        }
+    }
+
+    /// `Some(BgpEvent::PeerUp(data))` arm of the live loop of `BmpClient::serve` (transcribed
+    /// message construction, REAL `send_peer_up`).
+    pub(crate) fn peer_up(&mut self, data: crate::table_manager::PeerUpData) -> bool {
+        let remote_id = Ipv4Addr::from(data.peer_id);
+        let m = bmp::Message::PeerUp {
+            header: bmp::PerPeerHeader::new(0, data.peer_asn, remote_id, 0, data.peer_addr, data.uptime as u32),
+            local_addr: data.local_addr,
+            local_port: data.local_port,
+            remote_port: data.remote_port,
+            remote_open: data.received_open,
+            local_open: data.sent_open,
+        };
+        self.rt.block_on(send_peer_up(&mut self.sent, &mut self.lines, data.peer_addr, &m))
+    }
+
+    /// `Some(BgpEvent::PeerDown(data))` arm (transcribed message construction, REAL `send_peer_down`).
+    pub(crate) fn peer_down(&mut self, data: crate::table_manager::PeerDownData) -> bool {
+        let m = bmp::Message::PeerDown {
+            header: bmp::PerPeerHeader::new(
+                0,
+                data.peer_asn,
+                Ipv4Addr::from(data.peer_id),
+                0,
+                data.peer_addr,
+                data.uptime as u32,
+            ),
+            reason: data.reason,
+        };
+        self.rt.block_on(send_peer_down(&mut self.sent, &mut self.lines, data.peer_addr, &m))
+    }
+
+    /// Close the client end and decode what the server end received:
+    /// (BMP message type, per-peer header address) per message, in order.  `None` = not BMP framing.
+    pub(crate) fn finish(self) -> Option<Vec<(u8, IpAddr)>> {
+        use std::io::Read;
+        let Wire { rt, lines, mut server, .. } = self;
+        {
+            // dropping a tokio TcpStream needs the runtime context of its reactor
+            let _g = rt.enter();
+            drop(lines);
+        }
+        let mut buf = Vec::new();
+        server.read_to_end(&mut buf).ok()?;
+        let mut out = Vec::new();
+        let mut i = 0usize;
+        while i < buf.len() {
+            if buf.len() - i < 6 || buf[i] != 3 {
+                return None;
+            }
+            let len = u32::from_be_bytes([buf[i + 1], buf[i + 2], buf[i + 3], buf[i + 4]]) as usize;
+            let ty = buf[i + 5];
+            if len < 6 + 42 || i + len > buf.len() {
+                return None;
+            }
+            // per-peer header: type(1) flags(1) distinguisher(8) address(16) ...
+            let flags = buf[i + 7];
+            let a = &buf[i + 16..i + 32];
+            let addr = if flags & bmp::Message::PEER_FLAG_IPV6 != 0 {
+                let mut o = [0u8; 16];
+                o.copy_from_slice(a);
+                IpAddr::V6(std::net::Ipv6Addr::from(o))
+            } else {
+                IpAddr::V4(Ipv4Addr::new(a[12], a[13], a[14], a[15]))
+            };
+            out.push((ty, addr));
+            i += len;
+        }
+        Some(out)
     }
 }
